@@ -108,7 +108,7 @@ template <typename B> static uint64_t hash_bytes(const B& b) { return fnv1a(b.da
 struct Op { char k = 'K'; uint8_t a = 0; uint32_t n = 0; };
 struct Program { std::vector<std::vector<Op>> th; };
 
-static constexpr int kSlots = 7;
+static constexpr int kSlots = 9;
 static const char kTlKinds[] = "KNIJGMXS";
 static bool is_tl(char k) { return k && strchr(kTlKinds, k) != nullptr; }
 static bool is_kind(char k) { return k && strchr("RTVPWKNIJGMXS", k) != nullptr; }
@@ -311,11 +311,13 @@ std::atomic<long> AtomicTracked::constructed{0}, AtomicTracked::destroyed{0}, At
 
 struct TagA; struct TagB;
 struct MV { long i = 0; std::string s; bool str = false; };   // model value
-static bool slot_is_str(int s) { return s == 3 || s == 4; }
+static bool slot_is_str(int s) { return s == 3 || s == 4 || s == 8; }
 static const char* slot_name(int s) {
   static const char* n[kSlots] = {"ThreadLocal<int,ThreadLocalSlot<TagA,0>>", "ThreadLocal<int,ThreadLocalSlot<TagA,1>>", "ThreadLocal<int>",
                                   "ThreadLocal<string,ThreadLocalSlot<TagA,0>>", "ThreadLocal<string,ThreadLocalTypeSlot<TagB>>",
-                                  "ThreadLocal<AtomicTracked,ThreadLocalSlot<TagA,0>>", "ThreadLocal<AtomicTracked,ThreadLocalIndexSlot<1>>"};
+                                  "ThreadLocal<AtomicTracked,ThreadLocalSlot<TagA,0>>", "ThreadLocal<AtomicTracked,ThreadLocalIndexSlot<1>>",
+                                  // the three tag families name DIFFERENT slots even where their parameters look alike
+                                  "ThreadLocal<int,ThreadLocalIndexSlot<0>>", "ThreadLocal<string,ThreadLocalTypeSlot<TagA>>"};
   return n[s];
 }
 static MV mv_make(int tid, int slot, uint32_t n) {
@@ -335,6 +337,8 @@ template <> struct SlotDef<3> { using H = nop::ThreadLocal<std::string, nop::Thr
 template <> struct SlotDef<4> { using H = nop::ThreadLocal<std::string, nop::ThreadLocalTypeSlot<TagB>>; static std::string arg(const MV& v) { return v.s; } };
 template <> struct SlotDef<5> { using H = nop::ThreadLocal<AtomicTracked, nop::ThreadLocalSlot<TagA, 0>>; static int arg(const MV& v) { return (int)v.i; } };
 template <> struct SlotDef<6> { using H = nop::ThreadLocal<AtomicTracked, nop::ThreadLocalIndexSlot<1>>; static int arg(const MV& v) { return (int)v.i; } };
+template <> struct SlotDef<7> { using H = nop::ThreadLocal<int, nop::ThreadLocalIndexSlot<0>>; static int arg(const MV& v) { return (int)v.i; } };
+template <> struct SlotDef<8> { using H = nop::ThreadLocal<std::string, nop::ThreadLocalTypeSlot<TagA>>; static std::string arg(const MV& v) { return v.s; } };
 
 static std::string real_show(const int& x) { return std::to_string(x); }
 static std::string real_show(const std::string& x) { return x; }
@@ -363,12 +367,13 @@ template <int I> struct RealSlot {
 
 // Real backend: lives inside one thread.
 struct RealTL {
-  std::tuple<RealSlot<0>, RealSlot<1>, RealSlot<2>, RealSlot<3>, RealSlot<4>, RealSlot<5>, RealSlot<6>> slots;
+  std::tuple<RealSlot<0>, RealSlot<1>, RealSlot<2>, RealSlot<3>, RealSlot<4>, RealSlot<5>, RealSlot<6>, RealSlot<7>, RealSlot<8>> slots;
   template <typename F> std::string with(int s, F&& f) {
     switch (s) {
       case 0: return f(std::get<0>(slots)); case 1: return f(std::get<1>(slots)); case 2: return f(std::get<2>(slots));
       case 3: return f(std::get<3>(slots)); case 4: return f(std::get<4>(slots)); case 5: return f(std::get<5>(slots));
-      default: return f(std::get<6>(slots));
+      case 6: return f(std::get<6>(slots)); case 7: return f(std::get<7>(slots));
+      default: return f(std::get<8>(slots));
     }
   }
   void construct_arg(int s, const MV& v) { with(s, [&](auto& x) { x.construct_arg(v); return std::string(); }); }
